@@ -241,6 +241,11 @@ def prove_eq(lhs, rhs, hyps, opts):
                     if ats:
                         ctrl = tm.add(g, ats[0])  # negative control: goal shifted by a free atom must not be zero
                 hy_case = hyps + case
+                # branch conditions that are equalities affine in a plain variable (e.g. an event weight that is exactly minus the sum
+                # of the others) are used as rewrite rules: the normaliser cannot use hypotheses otherwise
+                g = _rewrite_by_equalities(g, case, tower, tm)
+                if g.op == "c" and g.args[0] == 0:
+                    continue
 
                 def oracle(t, hy_case=hy_case):
                     # sign of a rational function under the hypotheses (used for sqrt(r^2) = |r|)
@@ -256,6 +261,10 @@ def prove_eq(lhs, rhs, hyps, opts):
                 # the oracle (z3 calls + square-free factorisation of every radicand) is only paid for when that is not enough
                 st, info = tower.is_zero(g, budget_s=opts.get("ring_budget", 60.0), control=ctrl, sign_oracle=None)
                 if st not in ("zero", "unsound"):
+                    # a cheap solver attempt (hypotheses available there) before the expensive oracle pass
+                    vq = backends.prove(hy_case, tm.eq(g, tm.ZERO), rlimit=1500000, use_cvc5=False)
+                    if vq.status == "proved":
+                        continue
                     st, info = tower.is_zero(g, budget_s=opts.get("ring_budget", 60.0), control=ctrl, sign_oracle=oracle)
                 if st == "unsound":
                     return "error", "ring", "negative control normalised to zero: back end unsound"
@@ -285,6 +294,42 @@ def prove_eq(lhs, rhs, hyps, opts):
             return "refuted", "z3", "model %s" % v.model
         details.append(v.detail)
     return "undecided", "-", "; ".join(details)
+
+
+def _rewrite_by_equalities(goal, case_hyps, tower, tm):
+    """substitute v := rest for every case hypothesis `a == b` whose difference is  c*v + rest  with c a non-zero constant, v a plain
+    variable that does not occur in rest (sound: under the hypothesis the two goals are equal)"""
+    for h in case_hyps:
+        if h.op != "==":
+            continue
+        d = tm.add(h.args[0], tm.neg(h.args[1]))
+        try:
+            tw = tower.Tower([d], 5)
+            e = tw.root_elems()[0]
+        except Exception:
+            continue
+        if e.d or e.P == 0:
+            continue
+        nv = len(tw.gens)
+        for gi in range(nv):
+            at = tw.atom_of_gen.get(gi)
+            if at is None or at.op != "v":
+                continue
+            hits = [(m, c) for m, c in e.P.iterterms() if m[gi]]
+            if len(hits) != 1:
+                continue
+            m, c = hits[0]
+            if m[gi] != 1 or sum(m) != 1:
+                continue
+            rest = e.P - tw.gens[gi].mul_ground(c)
+            if any(mm[gi] for mm, _ in rest.iterterms()):
+                continue
+            from fractions import Fraction
+
+            expr = tm.mul(tm.neg(tw.poly_term(rest, {})), tm.const(Fraction(1, int(c))))
+            goal = tm.subst([goal], {at: expr})[0]
+            break
+    return goal
 
 
 def run_sym_group(spec, tier, seed):
@@ -333,6 +378,7 @@ def run_sym_group(spec, tier, seed):
                 ok = True
             if ok:
                 pts.append(env)
+        pts = pts + _boundary_points(claims, hyps, pts[:6], tm)
         for kind, name, a, b, opts in claims:
             import numpy as np
 
@@ -362,6 +408,54 @@ def run_sym_group(spec, tier, seed):
         r["prop"] = spec.prop
         r.setdefault("func", spec.funcs[0] if spec.funcs else None)
     return results
+
+
+def _boundary_points(claims, hyps, base_pts, tm, limit=48):
+    """sample points ON the branch boundaries x == y of the tf.where conditions occurring in the claims (random floats never hit them):
+    for a base point and a condition `a == b`, one variable is moved (secant step, exact when a - b is affine in it with slope +-1,
+    e.g. an event weight set to minus the sum of the others) so that the condition holds exactly; kept only if the hypotheses still hold"""
+    roots = []
+    for kind, name, a, b, opts in claims:
+        for arr in (a, b):
+            if arr is None:
+                continue
+            for e in arr.reshape(-1):
+                if isinstance(e, tm.C):
+                    roots += [e.re, e.im]
+                else:
+                    roots.append(tm._l(e))
+    conds = []
+    seen = set()
+    for t in tm.postorder(roots):
+        if t.op == "ite" and t.args[0].op == "==" and t.args[0].id not in seen:
+            seen.add(t.args[0].id)
+            conds.append(t.args[0])
+    out = []
+    for c in conds[:16]:
+        g = tm.add(c.args[0], tm.neg(c.args[1]))
+        names = sorted({x.args[0] for x in tm.postorder([g]) if x.op == "v"})
+        for env in base_pts:
+            for vn in names[:4]:
+                if len(out) >= limit:
+                    return out
+                try:
+                    e0 = dict(env)
+                    g0 = tm.eval_float([g], e0, interpret_uf=True)[0]
+                    e1 = dict(env)
+                    e1[vn] = env[vn] + 1.0
+                    g1 = tm.eval_float([g], e1, interpret_uf=True)[0]
+                    slope = g1 - g0
+                    if not (slope == slope) or slope == 0:
+                        continue
+                    e2 = dict(env)
+                    e2[vn] = env[vn] - g0 / slope
+                    if tm.eval_float([c], e2, interpret_uf=True)[0] != True:  # noqa: E712
+                        continue
+                    if all(tm.eval_float([h], e2, interpret_uf=True)[0] == True for h in hyps):  # noqa: E712
+                        out.append(e2)
+                except (KeyError, TypeError, ZeroDivisionError):
+                    continue
+    return out
 
 
 def _rel_err(x, y):
